@@ -22,6 +22,7 @@ DECIDED = [
     "the real enqueue",
     "R-C10-GATE (shared counter): the started-executions counter compared with max_tasks is state of the runner, not a local of one queue's loop; R-C10-STOP (order): finish_gracefully precedes the consumers' finish() (C03's shutdown rules reused)",
     "R-C10-STOP (all paths): the done-callback counts the task and evaluates the limit on every path, however the task ended",
+    "R-C10-STOP (round 5): the Redis finish() awaits its rejects, finish() drains only this consumer's own container, and the in-memory take records its holder before its last suspension point (C03 / C14 rules reused)",
 ]
 NOT_DECIDED = ["that run() returns promptly once M executions have finished (timing)"]
 ASSUMPTIONS = ["C09 (ownership): tasks are spawned only by the consume loop"]
@@ -35,7 +36,15 @@ def run(ctx: Ctx) -> None:
 
     unchanged(ctx, "R-C10-STOP")  # messages beyond the limit are returned untouched
     shutdown(ctx, "R-C10-STOP")  # the M started executions finish (finish_gracefully) before their messages could be handed back by finish()
-    graceful_budget(ctx, "R-C10-STOP")  # the M started executions get the graceful period to finish, they are not cut short by another budget
+    graceful_budget(ctx, "R-C10-STOP")
+    from .brokers import inmem_consume_rules
+    from .C03 import finish
+    from .C14 import finish_own
+
+    with ctx.as_rule("R-C10-STOP"):
+        finish(ctx, "R-C10-STOP")  # run() returns only after the prefetched messages beyond M are back in their queue (the rejects are awaited)
+        finish_own(ctx, "R-C10-STOP")
+        inmem_consume_rules(ctx, rule_t="R-C10-STOP", rule_a="R-C10-STOP")  # a consumer cancelled at the limit has recorded everything it took, so finish() returns it  # the M started executions get the graceful period to finish, they are not cut short by another budget
 
 
 def gate(ctx: Ctx, rule="R-C10-GATE") -> None:
